@@ -175,6 +175,15 @@ def gen_request(rng, endpoint, **over):
   if endpoint == "spe_search":
     n = max(n, rng.choice([12, 25, 40]))  # fewer than 10 observations is the library's own SPEInsufficientDataError
   points = gen_points(rng, dspec, n, np_seed)
+  pool = over.get("repeat_pool")
+  if pool and points:
+    # duplicate-heavy history: every row is one of `pool` distinct configurations
+    distinct = []
+    for p in points:
+      if p not in distinct:
+        distinct.append(p)
+    distinct = distinct[:pool]
+    points = [list(rng.choice(distinct)) for _ in range(n)]
   n = len(points)
   values = gen_values(rng, n, m)
   fail_p = rng.choice([0.0, 0.0, 0.1, 0.3, 0.6, 0.9])
